@@ -40,6 +40,18 @@ def items(tier):
     for sp in F.fac_specs(tier):
         sp = dict(sp)
         out.append((sp, {"rule": "TSLACK", "max_time": F.seq_bound(sp) + 8}))
+    # two workers whose log lists are the same objects before the run (a clone made with copy.copy)
+    sp = F.with_teams({"tasks": [{"name": "T0", "work": 2.0}, {"name": "T1", "work": 3.0}], "links": []}, "POOL2")
+    sp["teams"][0]["workers"][1]["share_logs_with"] = "W0"
+    out.append((sp, {"rule": "TSLACK", "max_time": 12}))
+    # parent teams / parent workplaces three levels deep
+    for rates in ((7.0, 3.0, 2.0), (0.0, 0.0, 5.0)):
+        out.append((F.team_hierarchy_spec(rates), {"rule": "TSLACK", "max_time": 12}))
+    # the automatic-task flag set (with and without automatic tasks in the model)
+    for sp, o in list(out)[:: (15 if tier == "quick" else 5)]:
+        out.append((sp, dict(o, auto_abs=True)))
+    for sp in F.auto_component_specs()[:2]:
+        out.append((sp, {"rule": "TSLACK", "auto_abs": True, "max_time": F.seq_bound(sp) + 12}))
     return out
 
 
